@@ -114,6 +114,6 @@ def replay(ctx, prop, path):
     trace = os.path.join(ctx.tmp, "replay.ndjson")
     files = os.path.join(ctx.tmp, "replay.files.ndjson")
     # the content of a run is derived from seed and group offset: rebuild the same content
-    ctx.harness(["lrun", "-seed", o["cseed"] // 100000, "-in", lp, "-out", trace, "-files", files, "-cseed", o["cseed"]])
+    ctx.harness(["lrun", "-seed", o["cseed"] // 100000, "-in", lp, "-out", trace, "-files", files, "-cseed", o["cseed"], "-salt", o["variant"]])
     judge(ctx, prop, "replay", trace, files)
     return ctx.finish("model_checking", RULES[prop])
